@@ -284,9 +284,34 @@ func runC15(res *lib.Result, tier string, seed int64, args []string) error {
 		if wi < 1 {
 			res.Sample(map[string]interface{}{"world": lib.Trunc(worldText, 700)})
 		}
+		// class K1 concerns a split class one of whose declaring files is the file a lookup starts in: the file
+		// of the typed variables (main.lua), of a child class, or of an alias naming it.  A class split over
+		// files none of which starts a lookup must show all its fields.
 		splitField := map[string]bool{}
 		for _, c := range w.classes {
 			if len(c.decls) > 1 {
+				declIn := map[string]bool{}
+				for _, d := range c.decls {
+					declIn[d.file] = true
+				}
+				starts := declIn["main.lua"]
+				for _, o := range w.classes {
+					for _, p := range o.parents {
+						if p == c.name {
+							for _, d := range o.decls {
+								starts = starts || declIn[d.file]
+							}
+						}
+					}
+				}
+				for _, a := range w.aliases {
+					for _, t := range a.targets {
+						starts = starts || (t == c.name && declIn[a.file])
+					}
+				}
+				if !starts {
+					continue
+				}
 				for _, d := range c.decls {
 					for _, f := range d.fields {
 						splitField[f] = true
